@@ -1498,6 +1498,12 @@ impl Engine<'_> {
             };
             self.c.inc("dumps_decoded");
             self.c.add("entries_decoded", own.len() as u64);
+            if ck.decode {
+                match check_headers(&dec, &model.ix[op_ix]) {
+                    Ok(k) => self.c.add("leaf_headers_checked", k),
+                    Err(e) => return Some(vio(step, "decode:header", format!("after {desc}: {e}"))),
+                }
+            }
             {
                 match forest::check_forest(&dec, dims, metric.disk_name()) {
                     Ok(st) => {
@@ -1692,6 +1698,63 @@ impl Engine<'_> {
         }
         None
     }
+}
+
+/// C16, header semantics of the reference layout: what the 4 (8 for DotProduct) header bytes of
+/// every leaf must contain right after a successful build.
+pub fn check_headers(dec: &RawIndex, m: &IndexModel) -> Result<u64, String> {
+    let f = |b: &[u8]| f32::from_ne_bytes(b[0..4].try_into().unwrap());
+    let mut checked = 0u64;
+    let norm_of = |bytes: &[u8]| -> f64 {
+        let mut s = 0f64;
+        for x in rawdb::f32s_of(bytes) {
+            s += x as f64 * x as f64;
+        }
+        s.sqrt()
+    };
+    // DotProduct: (extra_dim, norm) = (sqrt(M^2 - |v|^2), M^2) with M the largest norm of the index
+    let max_norm = if m.metric == Metric::DotProduct { dec.items.values().map(|it| norm_of(&it.vector)).fold(0f64, f64::max) } else { 0.0 };
+    for (id, it) in &dec.items {
+        let close = |got: f32, want: f64| (got as f64 - want).abs() <= 1e-3 * want.abs().max(1e-3);
+        match m.metric {
+            Metric::Euclidean | Metric::Manhattan | Metric::BqEuclidean | Metric::BqManhattan => {
+                if f(&it.header) != 0.0 {
+                    return Err(format!("item {id}: header of a {} leaf is {:e}, the reference layout stores a zero bias", m.metric.short(), f(&it.header)));
+                }
+            }
+            Metric::Cosine => {
+                let n = norm_of(&it.vector);
+                if n.is_finite() && n < 1e18 && n > 1e-18 && !close(f(&it.header), n) {
+                    return Err(format!("item {id}: cosine leaf header {:e}, the reference layout stores the vector's norm {n:e}", f(&it.header)));
+                }
+            }
+            Metric::BqCosine => {
+                let want = ((m.dims.div_ceil(64) * 64) as f64).sqrt();
+                if !close(f(&it.header), want) {
+                    return Err(format!("item {id}: binary quantized cosine leaf header {:e}, the reference layout stores sqrt(padded length) = {want:e}", f(&it.header)));
+                }
+            }
+            Metric::DotProduct => {
+                let n = norm_of(&it.vector);
+                // a vector with NaN / infinite components has no defined header (C20 territory)
+                if n.is_finite() && max_norm.is_finite() && max_norm < 1e18 && max_norm > 1e-15 {
+                    let extra = (max_norm * max_norm - n * n).max(0.0).sqrt();
+                    let got_extra = f(&it.header[0..4]);
+                    let got_norm = f(&it.header[4..8]);
+                    // sqrt of a difference of squares loses precision when |v| is close to M
+                    let ok_extra = (got_extra as f64 - extra).abs() <= 2e-3 * max_norm;
+                    if !close(got_norm, max_norm * max_norm) || !ok_extra {
+                        return Err(format!(
+                            "item {id}: dot-product leaf header (extra_dim, norm) = ({got_extra:e}, {got_norm:e}), the reference layout stores ({extra:e}, {:e})",
+                            max_norm * max_norm
+                        ));
+                    }
+                }
+            }
+        }
+        checked += 1;
+    }
+    Ok(checked)
 }
 
 /// Reference encoding of an item value for f32 metrics / quantised ones (used by the C19 twin).
